@@ -94,7 +94,15 @@ func OASCheck(oas, cat *ON) *Violation {
 		decl := map[string]*ON{}
 		for _, holder := range []*ON{pi, op} {
 			if ps := holder.Get("parameters"); ps.IsArr() {
+				// OpenAPI 3.0.3: "The list MUST NOT include duplicated parameters. A unique parameter is defined by a
+				// combination of a name and location."
+				seen := map[string]bool{}
 				for _, p := range ps.Vals {
+					k := p.S("in") + "\x00" + p.S("name")
+					if seen[k] {
+						return V("c17:duplicated-parameter", "interaction %q: the parameter %q in %q is listed twice", key, p.S("name"), p.S("in"))
+					}
+					seen[k] = true
 					if p.S("in") == "path" {
 						decl[p.S("name")] = p
 					}
